@@ -79,17 +79,20 @@ func (s *tqScript) classes() []string {
 }
 
 type tqOwner struct {
+	name   string          // property id
 	events map[string]bool // acceptor event kinds whose rejection this property owns
 	direct map[string]bool // direct observations owned: "hang", "panic"
 }
 
 var c06Owner = tqOwner{
+	name:   "C06",
 	events: map[string]bool{"wg.add": true, "wg.done": true, "wg.done.aborted": true, "wg.abort": true, "remember.new": true, "remember.dup": true,
 		"remember.dupdone": true, "obj.noaction": true, "obj.error": true, "obj.relerr": true, "batch.objfail": true,
 		"obj.unknown": true, "obj.unanswered": true, "result.ok": true, "result.fail": true, "consume": true, "wait.ret": true, "hang": true, "reset": true},
 	direct: map[string]bool{"hang": true, "panic": true},
 }
 var c15Owner = tqOwner{
+	name:   "C15",
 	events: map[string]bool{"retry": true, "retry.delay": true, "xfer.start": true, "xfer.end.ok": true, "xfer.end.retriable": true,
 		"xfer.end.fatal": true, "xfer.end.later": true, "srv.obj": true, "srv.later": true, "obj.xfer": true},
 	direct: map[string]bool{},
@@ -484,8 +487,10 @@ func runTQ(c *core.Ctx, own tqOwner, g tqGen) {
 	c.Set("traces_validated_against_impl", validated)
 	c.Set("trace_rejections", rejections)
 	c.Set("rejections_owned_by_other_property", otherProp)
-	c.Set("evaluations", len(runs))
-	c.Set("distinct_nontrivial", len(chosen))
+	// 7. transition-level binding of the batch goroutine (spec/BatchStep.tla)
+	nsteps := runBatchSteps(c, drv, own.name)
+	c.Set("evaluations", len(runs)+nsteps)
+	c.Set("distinct_nontrivial", len(chosen)+nsteps)
 	c.Set("rule", "scripts = TLC-emitted environment scripts (one per environment edge of the exhaustive run, de-duplicated); non-trivial = distinct script; each replayed under the listed number of perturbed schedules")
 	for i, s := range chosen {
 		if i%(len(chosen)/4+1) == 0 {
